@@ -1638,7 +1638,10 @@ def determine_quote_strategy(s):
 
 
 def escape_str_for_quote(use_quote, s):
-    escaped_with_quotes = repr(s)
+    escaped_with_quotes = _builtin_repr(
+        bytes if isinstance(s, bytes) else str,
+        s
+    )
     repr_used_quote = escaped_with_quotes[-1]
 
     # string may have a prefix
